@@ -134,7 +134,7 @@ func runWS(ctx context.Context, addr string, s *Script, callID string) ClientT {
 		switch op {
 		case "s":
 			if next < len(reqs) {
-				b, err := jsonM.Marshal(reqs[next].msg())
+				b, err := s.jsonOf(reqs[next])
 				if err != nil {
 					t.TransportErr = "marshal: " + err.Error()
 					return t
